@@ -231,6 +231,109 @@ func InterfaceFixture() (*fedlab.Config, *fedlab.Universe) {
 	return cfg, u
 }
 
+// GridFixture: protected fields whose only way into the response leads through a LIST OF LISTS (and a list of lists
+// of lists), with nullable and non-null levels, items of an abstract type, and a nested list inside an
+// entity-fetched subtree (seeded regression C14-m6: the coordinate collector must be complete over every shape of
+// the plan tree).
+//
+//	home (A): Query.board [[Cell]]  cube [[[Cell!]!]!]  shapes [[Shape]]  strict [[Cell!]!]!  cells [Cell]  row [Cell!]!  first Cell
+//	          interface Shape {id secret}, Cell @key(id) {id secret note}, Blob {id secret weight}
+//	ext  (B): Cell @key(id) {id extra tags [[Tag]] near [[Cell]]}, Tag {name hidden}
+func GridFixture() (*fedlab.Config, *fedlab.Universe) {
+	shapeFields := func() []*fedlab.FieldDef {
+		return []*fedlab.FieldDef{idf(), {Name: "secret", Type: str("String")}}
+	}
+	ll := func(t *fedlab.TypeRef) *fedlab.TypeRef { return fedlab.ListOf(fedlab.ListOf(t)) }
+	super := &fedlab.Schema{Query: "Query", Types: []*fedlab.TypeDef{
+		{Kind: fedlab.KObject, Name: "Query", Fields: []*fedlab.FieldDef{
+			{Name: "board", Type: ll(str("Cell"))},
+			{Name: "cube", Type: fedlab.NonNull(fedlab.ListOf(fedlab.NonNull(fedlab.ListOf(fedlab.NonNull(fedlab.ListOf(fedlab.NonNull(str("Cell"))))))))},
+			{Name: "shapes", Type: ll(str("Shape"))},
+			{Name: "strict", Type: fedlab.NonNull(fedlab.ListOf(fedlab.NonNull(fedlab.ListOf(fedlab.NonNull(str("Cell"))))))},
+			{Name: "cells", Type: fedlab.ListOf(str("Cell"))},
+			{Name: "row", Type: fedlab.NonNull(fedlab.ListOf(fedlab.NonNull(str("Cell"))))},
+			{Name: "first", Type: str("Cell")},
+		}},
+		{Kind: fedlab.KInterface, Name: "Shape", Fields: shapeFields()},
+		{Kind: fedlab.KObject, Name: "Cell", Implements: []string{"Shape"}, Fields: append(shapeFields(),
+			&fedlab.FieldDef{Name: "note", Type: str("String")},
+			&fedlab.FieldDef{Name: "extra", Type: str("String")},
+			&fedlab.FieldDef{Name: "tags", Type: ll(str("Tag"))},
+			&fedlab.FieldDef{Name: "near", Type: ll(str("Cell"))})},
+		{Kind: fedlab.KObject, Name: "Blob", Implements: []string{"Shape"}, Fields: append(shapeFields(),
+			&fedlab.FieldDef{Name: "weight", Type: str("String")})},
+		{Kind: fedlab.KObject, Name: "Tag", Fields: []*fedlab.FieldDef{{Name: "name", Type: str("String")}, {Name: "hidden", Type: str("String")}}},
+	}}
+	cfg := &fedlab.Config{Super: super, Subgraphs: []*fedlab.Subgraph{
+		{Name: "home", Types: []*fedlab.SubType{
+			{Name: "Query", Fields: sf("board", "cube", "shapes", "strict", "cells", "row", "first")},
+			{Name: "Shape", Fields: sf("id", "secret")},
+			{Name: "Cell", Keys: []string{"id"}, Fields: sf("id", "secret", "note")},
+			{Name: "Blob", Fields: sf("id", "secret", "weight")},
+		}},
+		{Name: "ext", Types: []*fedlab.SubType{
+			{Name: "Cell", Keys: []string{"id"}, NoImplements: true, Fields: sf("id", "extra", "tags", "near")},
+			{Name: "Tag", Fields: sf("name", "hidden")},
+		}},
+	}}
+	s := func(t, k, f string) fedlab.FV {
+		return fedlab.FV{Name: f, Val: fsc(fedlab.JS("zq9." + t + "." + k + "." + f))}
+	}
+	null := func() *fedlab.FVal { return fsc(fedlab.JN()) }
+	nref := func() *fedlab.FVal { return &fedlab.FVal{Kind: fedlab.FNullRef} }
+	c := func(k string) *fedlab.FVal { return fref("Cell", k) }
+	t := func(k string) *fedlab.FVal { return fref("Tag", k) }
+	cell := func(k string, tags, near *fedlab.FVal) *fedlab.Entity {
+		return &fedlab.Entity{Type: "Cell", Key: k, Fields: []fedlab.FV{
+			{Name: "id", Val: fsc(fedlab.JS(k))}, s("Cell", k, "secret"), s("Cell", k, "note"), s("Cell", k, "extra"),
+			{Name: "tags", Val: tags}, {Name: "near", Val: near}}}
+	}
+	tag := func(k string) *fedlab.Entity {
+		return &fedlab.Entity{Type: "Tag", Key: k, Fields: []fedlab.FV{s("Tag", k, "name"), s("Tag", k, "hidden")}}
+	}
+	u := &fedlab.Universe{Ents: []*fedlab.Entity{
+		{Type: "Query", Key: "", Fields: []fedlab.FV{
+			{Name: "board", Val: flst(flst(c("c1"), nref(), c("c2")), null(), flst(), flst(c("c3")))},
+			{Name: "cube", Val: flst(flst(flst(c("c1")), flst(c("c2"), c("c3"))), flst(flst(c("c4"))))},
+			{Name: "shapes", Val: flst(flst(c("c1"), fref("Blob", "b1")), flst(c("c4")), null())},
+			{Name: "strict", Val: flst(flst(c("c2"), c("c4")), flst(c("c3")))},
+			{Name: "cells", Val: flst(c("c1"), c("c3"))},
+			{Name: "row", Val: flst(c("c2"), c("c4"))},
+			{Name: "first", Val: c("c1")},
+		}},
+		cell("c1", flst(flst(t("t1"), t("t2")), flst(t("t3"))), flst(flst(c("c2")), flst(c("c3"), c("c4")))),
+		cell("c2", flst(flst()), flst()),
+		cell("c3", null(), null()),
+		cell("c4", flst(flst(t("t1")), null()), flst(flst(c("c1")))),
+		{Type: "Blob", Key: "b1", Fields: []fedlab.FV{{Name: "id", Val: fsc(fedlab.JS("b1"))}, s("Blob", "b1", "secret"), s("Blob", "b1", "weight")}},
+		tag("t1"), tag("t2"), tag("t3"),
+	}}
+	return cfg, u
+}
+
+// GridOps: 1 is the flat-list control; in 2 the coordinate is also reached through a flat list (collected there as
+// well).  Nested lists below an entity fetch are reached through an object or a flat list only (first / cells / row):
+// an entity fetch whose parent objects sit below a list of lists is never executed by the loader (selectItems
+// flattens one array level; C01 territory, see work/c14_nested_list_entity_fetch.md), such operations would be skipped.
+var GridOps = []string{
+	`{ board { id secret } }`,
+	`{ cells { id secret } }`,
+	`{ board { id secret } cells { secret } }`,
+	`{ cube { secret note } }`,
+	`{ shapes { id secret } }`,
+	`{ shapes { ... on Cell { secret note } ... on Blob { weight } } }`,
+	`{ shapes { secret ... on Cell { secret } } }`,
+	`{ first { tags { name hidden } } }`,
+	`{ cells { tags { hidden } } }`,
+	`{ cells { extra tags { hidden } } cube { id } }`,
+	`{ row { secret } board { note } }`,
+	`{ row { tags { hidden name } secret } }`,
+	`{ first { secret near { extra id } } }`,
+	`{ strict { note secret } }`,
+	`{ cells { near { tags { hidden } near { extra } } } }`,
+	`{ shapes { ... on Cell { secret note } ... on Blob { secret } } strict { id secret } }`,
+}
+
 // Fixture is a hand-written configuration with its operations and protected sets.
 type Fixture struct {
 	Name  string
@@ -290,6 +393,13 @@ func Fixtures() []Fixture {
 			{"UserProfile.psecret"}, // 9: nested rule on the covariant child type only
 			{"Profile.psecret", "UserProfile.psecret", "BasicProfile.psecret", "UserProfile.rank"},       // 10
 			{"User.secret", "User.title", "User.email", "User.notes", "Product.title", "Product.secret"}, // 11: fields of deferred fragments
+		}},
+		{Name: "grid", Build: GridFixture, Ops: GridOps, Ps: [][]string{
+			{"Cell.secret"}, // 0: rule on the concrete coordinate only
+			{"Shape.secret", "Cell.secret", "Blob.secret"}, // 1: closed across the interface
+			{"Tag.hidden", "Cell.note"},                    // 2: below a nested list inside an entity-fetched subtree
+			{"Cell.secret", "Tag.hidden", "Cell.extra", "Blob.weight"},
+			{"Query.board", "Cell.tags", "Tag.name", "Cell.near"}, // 4: the list-of-lists valued fields themselves
 		}},
 		{Name: "mut", Build: MutationFixture, Ops: MutationOps, Ps: [][]string{
 			{"Mutation.bump", "Mutation.wipe", "Mutation.purge"},
